@@ -17,7 +17,10 @@ def generate(tier, seed):
     g2 = C.run_tlc("Gen_Project", "Gen_Project_edges2", workers=4, timeout=900, heap="8g").json_lines("REPLAY")
     if len(g3) < 3000 or len(ge) < 3000 or len(gl) < 2560 or len(gd) < 3456 or len(g2) < 800:
         raise C.ToolError("graph generation incomplete: %d %d %d %d %d" % (len(g3), len(ge), len(gl), len(gd), len(g2)))
-    total = (len(g3), len(ge), len(gl), len(gd), len(g2))
+    gp = C.run_tlc("Gen_Project", "Gen_Project_pairroots", workers=4, timeout=900, heap="8g").json_lines("REPLAY")
+    if len(gp) < 160:
+        raise C.ToolError("pair-root generation incomplete: %d" % len(gp))
+    total = (len(g3), len(ge), len(gl), len(gd), len(g2), len(gp))
     rnd = random.Random(seed)
     if tier == "quick":
         g3 = rnd.sample(g3, 500)
@@ -62,7 +65,7 @@ def generate(tier, seed):
         gd = pick
         # nested edge contexts: every context pair at the parameter site, a seeded third of them at the return site
         g2 = [c for c in g2 if c["roots"][0]["site"] == "param" or rnd.random() < 0.34]
-    return g3 + ge + gl + gd + g2, total
+    return g3 + ge + gl + gd + g2 + gp, total
 
 
 def observe(d, cases, modes=("none", "zod"), repeats=1):
